@@ -49,6 +49,18 @@ has no entry then) -/
 def keyOutputs (customs : List (List CAct)) (slot : Nat) (a : Action) : List Nat :=
   addOutputs customs slot a []
 
+/-- `Overrides::output_non_mods_for_input_non_mod`: the output keys of the overrides of `kc` -/
+def overrideOuts (t : Override.Overrides) (kc : Nat) : List Nat :=
+  match t.byOsc.find? (·.1 == kc) with
+  | some (_, os) => os.map (·.outKey)
+  | none => []
+
+/-- `add_kc_output` with the override table: the key, then the output keys of its overrides.
+Folding it over the list `keyOutputs` computes (the keys in the order of their first `add_kc_output`
+call) gives the list the real function builds: a repeated call adds nothing that the first did not. -/
+def withOverrides (t : Override.Overrides) (base : List Nat) : List Nat :=
+  base.foldl (fun outs c => (overrideOuts t c).foldl addKc (addKc outs c)) []
+
 mutual
   /-- key codes of the key-producing leaves of an action -/
   def possibleOutputs (customs : List (List CAct)) (slot : Nat) : Action → List Nat
